@@ -192,6 +192,41 @@ func (f *File) Def(name string) *Node {
 	return nil
 }
 
+// staleOf is the out-of-date copy of a definition kept under the legacy
+// container keyword: every constraint is gone and every primitive type is a
+// different one, at every depth. A reader that lets it win over the current
+// definition is wrong for every kind of document.
+func staleOf(v jv.V) jv.V {
+	if v.K != jv.Obj {
+		return v
+	}
+	for _, k := range []string{"required", "minLength", "maxLength", "pattern", "format", "minimum", "maximum", "exclusiveMinimum", "exclusiveMaximum",
+		"multipleOf", "minItems", "maxItems", "enum", "default"} {
+		v = v.Del(k)
+	}
+	if t, ok := v.Get("type"); ok && t.K == jv.Str {
+		switch t.S {
+		case "string":
+			v = v.Set("type", jv.StrV("integer"))
+		case "integer", "number", "boolean":
+			v = v.Set("type", jv.StrV("string"))
+		}
+	}
+	if ps, ok := v.Get("properties"); ok && ps.K == jv.Obj {
+		np := ps.Clone()
+		for i := range np.O {
+			np.O[i].V = staleOf(np.O[i].V)
+		}
+		v = v.Set("properties", np)
+	}
+	for _, k := range []string{"items", "additionalProperties"} {
+		if x, ok := v.Get(k); ok && x.K == jv.Obj {
+			v = v.Set(k, staleOf(x))
+		}
+	}
+	return v
+}
+
 func IntP(i int) *int           { return &i }
 func FloatP(f float64) *float64 { return &f }
 
@@ -447,9 +482,7 @@ func (f *File) Render() jv.V {
 			add("$defs", dv)
 			stale := dv.Clone()
 			for i := range stale.O {
-				if stale.O[i].V.K == jv.Obj {
-					stale.O[i].V = stale.O[i].V.Del("required").Del("minLength").Del("minimum").Del("minItems")
-				}
+				stale.O[i].V = staleOf(stale.O[i].V)
 			}
 			add("definitions", stale)
 		case sp.BothDefs:
